@@ -121,7 +121,7 @@ func init() {
 				if c.Tier == "thorough" {
 					return n * 260
 				}
-				return n * 8
+				return n * 30
 			},
 			Plan: planC16,
 			Exec: execC16,
